@@ -25,9 +25,9 @@ ASSUMPTIONS = [
 ]
 
 SVAL = 'VAL'
-NAKED = ['a', 'a#b', '#', 'a\\b', 'é', 'a=b', 'a:b', 'a(b', 'x-y', '@[S]@', 'pre@[S]@', '@[', ']@', '@[no/sym]@', 'a@[S]@@[S]@', '\\', 'a#']
-SOFT = ['a', 'a b', ' ', '', "it's", '@[S]@', 'x @[S]@ y', '#', 'a#b', '\\', '(', '=', '-x', '<<EOF', ':> t', 'é', '@[', ']@ @[', '&&']
-HARD = ['a', 'a b', ' ', '', 'say "hi"', '@[S]@', 'x @[S]@ y', '#', 'a #b', '\\', ')', ':', '--x', '<<', ':>', 'é', '||']
+NAKED = ['&', '|', '=', '(', ':', '!', '{', 'a', 'a#b', '#', 'a\\b', 'é', 'a=b', 'a:b', 'a(b', 'x-y', '@[S]@', 'pre@[S]@', '@[', ']@', '@[no/sym]@', 'a@[S]@@[S]@', '\\', 'a#']
+SOFT = ['&', '|', 'a', 'a b', ' ', '', "it's", '@[S]@', 'x @[S]@ y', '#', 'a#b', '\\', '(', '=', '-x', '<<EOF', ':> t', 'é', '@[', ']@ @[', '&&']
+HARD = ['&', '|', 'a', 'a b', ' ', '', 'say "hi"', '@[S]@', 'x @[S]@ y', '#', 'a #b', '\\', ')', ':', '--x', '<<', ':>', 'é', '||']
 
 
 def den(form, content):
@@ -46,7 +46,7 @@ def fragments():
 def strings(tier):
     fs = fragments()
     out = [[f] for f in fs]
-    core = [('naked', 'a'), ('naked', '@[S]@'), ('naked', 'a#b'), ('soft', 'a b'), ('soft', '@[S]@'), ('soft', ''), ('hard', 'a b'), ('hard', '@[S]@'), ('hard', ''),
+    core = [('naked', '&'), ('naked', '|'), ('naked', '='), ('naked', '('), ('naked', 'a'), ('naked', '@[S]@'), ('naked', 'a#b'), ('soft', 'a b'), ('soft', '@[S]@'), ('soft', ''), ('hard', 'a b'), ('hard', '@[S]@'), ('hard', ''),
             ('hard', 'say "hi"'), ('soft', "it's"), ('naked', '\\'), ('naked', 'é')]
     for a in core:
         for b in fs:
@@ -88,13 +88,15 @@ def expressible(s_, first_in_list):
             return False
     if all(f == 'naked' for f, _ in s_) and text in RESERVED:
         return False
+    if any(f == 'naked' and c in RESERVED for f, c in s_):
+        return False  # a naked fragment that is itself a reserved word (e.g. `(""`): the manual requires reserved words to be quoted
     return True
 
 
 FOLLOWERS = ('eol', 'eof', 'arg', 'paren', 'continuation')
 CONTEXTS = ('argv', 'file', 'list')
 
-HD_LINES = ['text', '', '# c', '[assert]', 'EOF ', ' EOF', 'EOFX', '@[S]@']
+HD_LINES = ['text', '', '# c', '[assert]', 'EOF ', ' EOF', 'EOFX', '@[S]@', "don't stop", '5" disk']
 HD_MARKERS = ['EOF', '-', 'E-F']
 
 SPLIT_STRINGS = ['a b', "it's @[S]@", 'x@[S]@y z']
@@ -324,6 +326,11 @@ RICH = [
     (':> <<EOF', '<<EOF'),
     (':> é @[S]@@[S]@', 'é VALVAL'),
     (':> \\', '\\'),
+    (":> it's here", "it's here"),
+    (":> 'tis", "'tis"),
+    (':> 5" disk @[S]@', '5" disk VAL'),
+    (":> well, it's fine", "well, it's fine"),
+    (':> "unbalanced', '"unbalanced'),
 ]
 
 
